@@ -14,10 +14,11 @@ claim('C12', 'Lean 4 theorems over a hand model of find_line + translated block 
 claim('C02', 'Lean 4 theorems (lines tile the file; messages partition; find_sysline / streaming loop emit each message once) over hand models of LineReader and SyslineReader; in-process differential correspondence; stdout == file-suffix oracle',
       "Machine-checked for every parser P, every byte string, every block size >= 1: find_line is the line containing the offset, lines tile the file, messages are "
       "contiguous from the first timestamped line to the last byte, find_sysline returns the containing message, and the streaming loop of exec_syslogprocessor emits every "
-      "message exactly once in file order. The models are tied to the real readers by differential runs (exhaustive small files at every block size; random access with warm "
+      "message exactly once in file order; the LineReader's cache and drops are transparent for every history (CacheSpec); the printer writes exactly the message's parts in order through "
+      "its 2056-byte buffer (PrintSpec: C13_parts_bytes, C19_printed_eq_written, macro bodies regenerated from printers.rs). The models are tied to the real readers by differential runs (exhaustive small files at every block size; random access with warm "
       "caches and drops; gz). The binary's stdout is compared byte for byte with the file suffix for 8 input shapes (CRLF, NUL/non-UTF-8, missing final newline, headless "
-      "prefix, multi-block lines, > 8096 bytes). The acceptance gate is modelled and tied but is bs-dependent: known findings F1, F2.",
-      TB + "Modelled not verified: regex/chrono decide which lines are timestamped (parameter P); reader caches and drop_data (validated by histories); printers (C13).",
+      "prefix, multi-block lines, > 8096 bytes, lines longer than the print buffer). The acceptance gate is modelled and tied but is bs-dependent: known findings F1, F2.",
+      TB + "Modelled not verified: regex/chrono decide which lines are timestamped (parameter P); SyslineReader caches and drop_data (validated by histories).",
       "DESIGN.md §6 C02")
 
 claim('C03', 'Lean 4 theorems over source-translated window functions + hand models of binary/linear search and the streaming loop; in-process differential correspondence; -a/-b oracle on the binary',
@@ -102,23 +103,31 @@ claim('C15', 'Lean 4 theorems on a walk/expansion model over the proved classifi
       "Machine-checked: the walk lists files in strict component-wise path order (not the byte order of joined strings: proved), is a permutation of all files of the tree now that the "
       "source asks jwalk to include hidden entries (C15_full_holds unfolds the regenerated flag; the skipped-hidden counter-model documents the defect repaired by this work), expanding a "
       "directory equals expanding the explicit sorted list of its kept files with identical types, a named file is always attempted, '-' splices stdin lines in place, PathIds follow list "
-      "order. Tie: real process_path on ~2000 generated trees (dot-names, non-UTF-8 names, links) per run; s4 DIR vs explicit list vs stdin forms on generated trees. Known findings F18-F20.",
-      TB + "jwalk behaviour as read from its source; std::fs::canonicalize; tar member enumeration is outside the model.",
+      "order; a .tar met in a walk expands member by member exactly as the same .tar named explicitly, for every archive content (C15_tar_members, unfolding the flags passed at both "
+      "call sites as regenerated from process_path; counter-model tar_flag_false_loses), and the whole-directory statement holds with archives expanded (C15_dir_eq_explicit_tar). "
+      "Tie: real process_path on ~2000 generated trees (dot-names, non-UTF-8 names, links) and on ~2500 REAL tar files written header by header (ustar/GNU/v7, long names, non-regular "
+      "entries, zero sizes, corrupt tails) per run; s4 DIR vs explicit list vs stdin forms on generated trees incl. populated archives. Known findings F18-F20.",
+      TB + "jwalk behaviour as read from its source; std::fs::canonicalize; the tar crate's iterator (validated differentially); tar paths that are not UTF-8 are outside the tar model (F20).",
       "DESIGN.md §6 C15")
 
 claim('C13', 'Lean 4 theorems on a byte-level model of the 24 print variants and the coordinator\'s separator/newline writes; model-vs-binary stdout correspondence over the option matrix; strip oracle',
       "Machine-checked: with no options the output is the message bytes; for every kind and colour setting each line is file field ++ datetime field ++ line (C13_field_order_full_holds, after the "
       "repair of the one swapped variant; counter-model kept); removing escapes and fields recovers the payload (text logs, accounting records; event/journal payloads that end in a newline, "
-      "necessity proved); exactly one separator after each message; aligned names pad to the common width for one-column characters (wide characters: F9). Tie: the model renders "
+      "necessity proved); exactly one separator after each message; with -w every printed name is padded to the widest one in DISPLAY columns for arbitrary names (C13_align_full_holds, unfolding the "
+      "padding measure regenerated from s4.rs; the char-count padding repaired as F9 is the counter-model); the prepend separator is literal (F17 repaired, flag regenerated); a line split over read "
+      "blocks is written part by part by a loop whose per-part body is TRANSLATED from print_color_line_highlight_dt! on every run: for every partition and datetime span the writes are the line and "
+      "exactly bytes b..e carry the datetime colour (C13_parts_bytes, C13_parts_dt). Tie: real PrinterLogMessage on real multi-part Syslines (component prt, 2000 files per run); the model renders "
       "384+ option combinations per run from the undecorated run, the independently computed datetime strings and the palette parsed from the source, and must equal the binary's stdout byte for byte.",
-      TB + "chrono strftime formatting, termcolor escapes and unicode-width are outside the model (F17 lives there); multi-part lines are not modelled.",
+      TB + "chrono strftime formatting, termcolor escapes and unicode-width's per-character widths are outside the model.",
       "DESIGN.md §6 C13")
 
 claim('C19', 'Lean 4 theorems on the accounting model of processing_loop/SummaryPrinted; stderr-summary-vs-model-vs-stdout correspondence on the binary',
       "Machine-checked over any sequence of printed messages: accounted bytes = length of stdout with escapes removed (= literal stdout length with --color never), per-file bytes + "
       "separators + added newlines = total, message counts per kind exact, lines = lines of text-log messages, first/last = min/max printed instants. The unconditional byte statement is false with "
-      "colour (F6, proved). Tie: each run is made with and without --summary; stdout must be identical, and the parsed totals/per-file numbers/first-last/-a -b echo must equal the model's and the bytes on stdout.",
-      TB + "`flushed` counters and the layout of the summary text are not modelled (parsers key on the labels).",
+      "colour (F6, proved). The printers' byte accounting is modelled down to the 2056-byte buffer (capacity, macro counter updates and the order of every returned (printed, flushed) tuple regenerated "
+      "from printers.rs): for every message and option set the returned `printed` equals the bytes written (C19_printed_eq_written; swapped-tuple counter-models). Tie: component prt (real print_sysline, "
+      "messages larger than the buffer) and: each run is made with and without --summary; stdout must be identical, and the parsed totals/per-file numbers/first-last/-a -b echo must equal the model's and the bytes on stdout.",
+      TB + "the summary's `flushed` total is not compared end to end; the layout of the summary text is not modelled (parsers key on the labels).",
       "DESIGN.md §6 C19")
 
 claim('C14', 'Lean 4 theorems on a model of process_dt / the relative-offset matcher / -a -b resolution over tables regenerated from the source (76 patterns, regex pieces and anchors, 392 zones); H2 evaluation-mode correspondence (70k values per run) and --summary oracle',
@@ -135,7 +144,10 @@ claim('C05', 'Lean 4 theorems on the per-container block-assembly loops (all chu
       "Machine-checked for every block size, every byte string (empty, 1 byte, exact multiples) and every decoder chunking: gz, bz2, xz, tar and the temp-file extraction assemble exactly the "
       "plain file's blocks and learn its size; a streamed reader asked in non-decreasing order answers like the plain reader; the look-back depth as coded is 0 (proved, with the "
       "'one block behind' counter-model); the xz extra empty block is never returned. lz4 assembles exactly the plain file's blocks for every chunking; the proof unfolds the generated "
-      "LZ4_FILL_LOOP (the single-read reader, repaired in 0949c9b4 / was F22, is kept as a counter-model). Tie: real BlockReader on containers built in the harness (gz levels/flush points, xz, lz4 frames, "
+      "LZ4_FILL_LOOP (the single-read reader, repaired in 0949c9b4 / was F22, is kept as a counter-model). The non-decreasing premise is discharged from the source: the whole is_streamed_file "
+      "table, the `linear search iff streamed` choice and the `keep every block iff streamed and year-less` policy are regenerated, every (file type, gz|bz2|lz4) row is true (C05_streamed_table), so the "
+      "search on such a file is linear and gets the plain file's blocks (C05_search_on_streamed_ok) while a bisection would lose blocks (binary_on_stream_loses), and the backwards year pass is "
+      "answered correctly because drops are disabled (C05_yearless_keep). Tie: real BlockReader on containers built in the harness (gz levels/flush points, xz, lz4 frames, "
       "tar variants, python bz2/pax) under several request orders; the binary on plain vs packed text logs (also multi-block at small --blocksz with windows, and year-less), "
       "accounting files (F24 repaired in fd997268), the evtx sample and a journal. Known finding F23 (third-party bz2 decoder).",
       TB + "flate2, bzip2-rs, lz4_flex, lzma-rs, tar decode correctly (F23 is a decoder failure); real chunk sizes are not observed (the theorem covers all chunkings).",
@@ -144,8 +156,10 @@ claim('C05', 'Lean 4 theorems on the per-container block-assembly loops (all chu
 claim('C17', 'Lean 4 theorems on a retained-data counting model with drop rules regenerated from the source; --summary high-water-mark oracle on files growing x10',
       "Machine-checked: a gz/bz2/lz4 reader under non-decreasing requests holds at most one block (blocks high <= 2) whatever the file size; the steady-state bound for retained lines/blocks is "
       "FALSE in three families (multi-block messages with a lagging consumer; block-aligned lines on plain files), shown by kernel evaluation of the model and matching the binary "
-      "(F8, F25); the bounded case is checked at instances only (not proved in general: partial). Tie: high-water marks from --summary on generated files growing x10 at the default and small "
-      "block sizes, plain and compressed.",
+      "(F8, F25); the bound IS proved for every number of messages in the geometry `one message per block boundary, at most M lines each, prompt consumer` by an invariant over the "
+      "stage-3 loop (C17_bound_partial_general: 7 blocks / 5M+1 lines / 5 messages on a plain file, 2 / 5M+1 / 5 streamed), unfolding the regenerated facts that drop_sysline hands ALL lines to "
+      "drop_lines and drop_lines visits EVERY line (counter-model drop_lines_short_circuit_grows); several messages per block are covered end to end only (partial). Tie: high-water marks from --summary on generated files growing x10 at the default and small "
+      "block sizes, plain and compressed, one-line and 61-line messages.",
       TB + "Runtime behaviour the model cannot exhibit: allocator, real RSS; which messages the consumer still holds depends on scheduling.",
       "DESIGN.md §6 C17")
 
